@@ -509,6 +509,7 @@ def run(U, rep, tier):
   r3_5b(U, rep, tier)
   r3_7(U, rep)
   r3_8(U, rep, tier)
+  r3_9(U, rep)
 
 
 def r3_7(U, rep):
@@ -566,3 +567,31 @@ def r3_8(U, rep, tier):
               lambda ev=ev: 'for a %s stack the joint read-back evaluates %s (in %s): the derivative there is 0/0, so every '
               'gradient through a spring / positional step of such a model is NaN' % (kinds, ev[0][0], ' <- '.join(reversed(ev[0][1]))),
               where=f.where(), construct='stack pattern %s, orthonormal axes, generic j / jd' % pat)
+
+
+def r3_9(U, rep):
+  """R3.9 [STRUCT, site rule]: no sign-magnitude recomposition `sign(x) * g(|x|)` of a differentiated quantity in code
+  reachable from the pipelines.  Autodiff gives d sign = 0 and d|x| = sign(x), hence derivative 0 at x = 0 -- where the
+  function such a recomposition replaces (a clip, a saturation, the identity) has derivative 1: the gradient w.r.t. a
+  control whose force is exactly zero (ctrl = 0, a servo at its target) is finite but wrong.  A function that takes both
+  the sign and the absolute value of the SAME operand is reported; |x| * x (fluid drag) or a sign used with another
+  operand (the Euler-chart sign of kinematics) are not."""
+  scope = sorted(U.pipeline_reach())
+  n = hits = 0
+  for q in scope:
+    f = U.funcs[q]
+    ops = {'sign': {}, 'abs': {}}
+    for node in own_nodes(f.node):
+      if isinstance(node, ast.Call) and node.args:
+        name = (call_name(node, f.mod) or '').rsplit('.', 1)[-1]
+        if name in ('sign', 'abs', 'absolute', 'fabs'):
+          ops['sign' if name == 'sign' else 'abs'].setdefault(ast.unparse(node.args[0]).replace(' ', ''), node)
+    n += 1
+    for operand in sorted(set(ops['sign']) & set(ops['abs'])):
+      hits += 1
+      rep.fail('R3.9', 'sign-magnitude|%s|%s' % (q, operand), '%s takes both sign(%s) and abs(%s): a sign-magnitude recomposition has '
+               'autodiff derivative 0 at %s = 0 (d sign = 0, d|x| = sign(0) = 0) where the saturation / identity it stands for has '
+               'derivative 1' % (q, operand, operand, operand), where=f.where(ops['sign'][operand]), construct=ast.unparse(ops['sign'][operand]))
+  rep.check(hits == 0 and n >= 100, 'R3.9', 'no sign-magnitude recomposition in differentiated code',
+            '%d recomposition(s) found / only %d functions scanned' % (hits, n), where=U.func('brax.generalized.pipeline.step').where(),
+            construct='%d functions reachable from the pipelines' % n)
